@@ -178,7 +178,9 @@ class NexusFitter(object):
 
     def release_parameter(self, name):
         self._minimizer.release(name)
-        self._fixed_pars.pop(name, None)
+        if self._fixed_pars.pop(name, None) is not None:
+            # the results of an earlier fit do not describe a minimum with respect to the released parameter
+            self.reset_minimizer()
 
     def limit_parameter(self, name, limits):
         if name not in self._fit_par_names:
